@@ -20,12 +20,14 @@ import (
 	"testing"
 	"time"
 
+	"github.com/tink-crypto/tink-go/v2/insecurecleartextkeyset"
 	"github.com/tink-crypto/tink-go/v2/jwt"
 	"github.com/tink-crypto/tink-go/v2/jwt/jwtecdsa"
 	"github.com/tink-crypto/tink-go/v2/jwt/jwtmldsa"
 	"github.com/tink-crypto/tink-go/v2/jwt/jwtrsassapkcs1"
 	"github.com/tink-crypto/tink-go/v2/jwt/jwtrsassapss"
 	"github.com/tink-crypto/tink-go/v2/keyset"
+	tinkpb "github.com/tink-crypto/tink-go/v2/proto/tink_go_proto"
 	"github.com/tink-crypto/tink-go/v2/verifsim/catalog"
 	"github.com/tink-crypto/tink-go/v2/verifsim/core"
 	"github.com/tink-crypto/tink-go/v2/verifsim/refimpl/jwtref"
@@ -69,7 +71,7 @@ func TestMain(m *testing.M) {
 		"skew-0", "skew-1ns", "skew-1s", "skew-10min", "skew-other", "skew-10min+1ns-refused", "skew-10min+1s-refused", "conflicting-options-refused", "deprecated-audiences-option",
 		"validator-reused-at-later-instant", "fixednow-at-another-clock", "issued-by-tink", "issued-by-harness-encoder", "returned-claims-compared",
 		"returned-custom-claim-string", "returned-custom-claim-number", "returned-custom-claim-bool", "returned-custom-claim-null", "returned-custom-claim-array", "returned-custom-claim-object", "jwk-transport", "jwk-export-of-private-keyset-refused", "jwk-export-of-mac-keyset-refused", "jwk-export-refused-mldsa", "jwk-tinkkid-becomes-customkid", "jwk-roundtrip-signed-token-verified", "unsettled-iat-missing", "unsettled-reencoded-base64",
-		"custom-kid-key", "tink-kid-key", "ignored-kid-key", "shared-material-keys", "accepted-by-non-first-key", "token-of-foreign-key", "token-of-disabled-key",
+		"custom-kid-key", "tink-kid-key", "ignored-kid-key", "shared-material-keys", "accepted-by-non-first-key", "token-of-foreign-key", "token-of-disabled-key", "keyset-with-destroyed-key",
 		"header-of-another-keyset-key", "exp-at-max-timestamp", "far-future-leap", "family-HS", "family-ES", "family-RS", "family-PS", "family-ML", "mixed-family-keyset",
 		"accept", "reject", "expired-on-arrival", "aud-list-last-matches", "empty-string-expectation",
 		"rsa-modulus-leading-zero", "rsa-private-integers-leading-zero", "rsa-key-through-proto-parser", "rsa-modulus-bits-not-multiple-of-8",
@@ -162,7 +164,7 @@ func handleOf(k *wkey) (*keyset.Handle, error) { return catalog.HandleOf(k.tk) }
 var (
 	issPool = []string{"https://issuer.example", "https://issuer.example/", "HTTPS://ISSUER.EXAMPLE", "", "ïssuer-é"}
 	audPool = []string{"svc-a", "svc-b", "SVC-A", "", "svc-a "}
-	typPool = []string{"JWT", "jwt", "at+jwt", "application/jwt", ""}
+	typPool = []string{"JWT", "jwt", "at+jwt", "application/jwt", "", "t\x01yp\x7f\v", "\U0001F511\"typ\\"}
 	strPool = []string{"", "a", "héllo wörld", "quote\"back\\slash/", "line\nbreak\ttab", "nul\u0000byte", "😀 astral", "<script>&amp;", "sep para ", "https://x.example/?q=1&r=%20"}
 	numPool = []float64{0, 1, -1, 0.5, -2.75, 1e-7, 123456789012, 9007199254740991, -9007199254740991, 1.7976931348623157e308, 5e-324, 946684800, 1e21}
 	namPool = []string{"scope", "x", "", " ", "émoji-😀", "a.b", "exp ", "EXP", "Iss", "https://claims.example/role", "nested"}
@@ -304,7 +306,7 @@ func (w *world) drawKeys() {
 			k.kid = kidOfID(k.id)
 			w.r.Probe("tink-kid-key")
 		case jwtref.KIDCustom:
-			k.kid = rapid.SampledFrom([]string{"custom-kid", "", "AQIDBA", "kid with space", "KID-é", "0"}).Draw(t, "customKID")
+			k.kid = rapid.SampledFrom([]string{"custom-kid", "", "AQIDBA", "kid with space", "KID-é", "0", "k\x01d\x7f", "kid\vtab\t\"q\"\\", "\U0001F511-key"}).Draw(t, "customKID")
 			w.r.Probe("custom-kid-key")
 		default:
 			w.r.Probe("ignored-kid-key")
@@ -378,6 +380,31 @@ func (w *world) drawKeys() {
 	h, err := m.Handle()
 	if err != nil {
 		t.Fatalf("harness: Handle: %v", err)
+	}
+	// a stored keyset also knows DESTROYED keys (no manager operation produces the status): some of the non-enabled
+	// keys get it through the serialized form
+	var destroy []uint32
+	for _, k := range w.keys {
+		if !k.enabled && rapid.Bool().Draw(t, "destroyed") {
+			destroy = append(destroy, k.ksID)
+		}
+	}
+	if len(destroy) > 0 {
+		if ks := insecurecleartextkeyset.KeysetMaterial(h); ks != nil {
+			for _, pk := range ks.Key {
+				for _, id := range destroy {
+					if pk.KeyId == id {
+						pk.Status = tinkpb.KeyStatusType_DESTROYED
+					}
+				}
+			}
+			if h2, err := insecurecleartextkeyset.Read(&keyset.MemReaderWriter{Keyset: ks}); err == nil {
+				h = h2
+				w.r.Probe("keyset-with-destroyed-key")
+			} else {
+				core.CountGlobal("keyset-with-destroyed-key-refused")
+			}
+		}
 	}
 	w.handle = h
 	for _, k := range w.keys {
